@@ -20,3 +20,17 @@ def check(run):
     run.rule(r4, "deferred ids: a base-id list shared by several registration records of a class is resolved once (its own flag is tested), however many records name it", floor=3)
     crules.deferred_rules(run, r4, r4, r4, ast)
     crules.mark_rules(run, r2, ast)
+    # pre-generated tables: the encoder writes one v-table per merged class, the decoder walks the registration records - a class
+    # registered in several statements must consume one table only (rule shared with C13-cells)
+    from . import c13
+    from .. import astq, common, witness
+    r5 = "C08-decode"
+    run.rule(r5, "decode_dispatch_data: a registration record whose class already has its v-table is skipped before anything is read (classes registered several times)", floor=1)
+    pols = ["release", "debug"]
+    src13, _ = witness.call_matrix(pols, ["rr"], witness.update_block(pols))
+    ast13 = astq.Ast(common.ast_json(run, src13, "c13_ast_nd", ndebug=True, funcs=c13.FUNCS))
+    decs = [f for f in ast13.funcs if f.get("body") and "decode_dispatch_data<" in f["name"]]
+    if not decs:
+        run.broken.append("C08-decode: decode_dispatch_data is not instantiated in the unit")
+    for f in decs:
+        c13.record_once_rule(run, r5, f)
